@@ -30,12 +30,13 @@ TABLE_PROFILE = {
     "kinds": ["insert", "ctas", "view", "bare", "insert_cols", "select_into", "update", "update_from", "merge", "merge_derived", "delete", "truncate", "update_self"],
     "query": ["select", "union", "union3", "with", "with2", "with_recursive", "union_paren"],
     "from": ["one", "join", "comma", "join3", "left_using", "cross", "join_comma", "comma_join", "nested_paren", "paren_join_join", "join_paren_join", "full_outer"],
-    "rel": ["base", "base_alias", "qualified", "qualified_alias", "derived", "derived_union", "cte", "cte_alias", "cte_quoted", "base_quoted", "base_target"],
-    "where": ["none", "lit", "in_sub", "exists", "scalar_cmp", "and_two"],
+    "rel": ["base", "base_alias", "qualified", "qualified_alias", "derived", "derived_union", "cte", "cte_alias", "cte_quoted", "base_quoted", "base_target", "path_quoted"],
+    "where": ["none", "lit", "in_sub", "exists", "scalar_cmp", "and_two", "scalar_cmp_both"],
     "items": ["col", "star", "scalar_sub", "case_sub"],
     "tail": ["none", "group", "having_sub"],
     "nitems": [1],
     "colref_style": ["unq"],
+    "alias_reuse": True,
 }
 
 COLUMN_PROFILE = {
@@ -51,6 +52,10 @@ COLUMN_PROFILE = {
     "alias_reuse": True,
     "colname_reuse": True,
 }
+
+# a second centre for the table-level ball: a set operation whose branches each read a derived table (alias re-use across branches is then
+# one deviation away)
+TABLE_SETOP = dict(TABLE_PROFILE, top={"query": ["union"], "rel": ["derived"]})
 
 # file paths as sources and targets (C01: "base tables and file paths"): COPY in both directions, INSERT OVERWRITE DIRECTORY,
 # files read in FROM (spark family). Centre: INSERT OVERWRITE DIRECTORY '<p>' SELECT c1 FROM parquet.`<p>`
@@ -168,6 +173,8 @@ def gen_rel(ctx: Ctx, depth: int, path: str):
         return {"k": "base", "t": T("tgt"), "alias": ctx.alias(), "as": False}
     if k == "base_quoted":
         return {"k": "base", "t": T(ctx.base()), "alias": None, "as": False, "quoted": True}
+    if k == "path_quoted":  # schema-qualified and quoted: part by part, or - where the dialect reads it as a dotted path (bigquery) - as a whole
+        return {"k": "base", "t": T(ctx.base(), "s1"), "alias": None, "as": False, "quoted": "whole"}
     if k == "base":
         return {"k": "base", "t": T(ctx.base()), "alias": None, "as": False}
     if k == "base_alias":
@@ -313,6 +320,8 @@ def gen_pred(ctx: Ctx, depth: int, path: str):
         return ["exists", sub(0)]
     if k == "scalar_cmp":
         return ["cmp", sub(0)]
+    if k == "scalar_cmp_both":  # a scalar subquery on either side of the comparison
+        return ["cmp2", sub(0), sub(1)]
     return ["and", ["in", sub(0)], ["in", sub(1)]]
 
 
@@ -487,6 +496,10 @@ class R:
 
     def table(self, t, quoted=False):
         s = t["s"] if t["s"] is not None else self.qualify
+        if quoted == "whole" and s:
+            if self.dialect == "bigquery":
+                return self.quote(f"{s}.{t['n']}")  # `s1.t1` is the dotted path s1.t1 there (elsewhere it would be one odd identifier)
+            return f"{self.quote(s)}.{self.quote(t['n'])}"
         n = self.quote(t["n"]) if quoted else t["n"]
         return f"{s}.{n}" if s else n
 
@@ -600,6 +613,8 @@ def r_pred(p, o: R):
         return f"EXISTS ({r_query(p[1], o)})"
     if k == "cmp":
         return f"w1 > ({r_query(p[1], o)})"
+    if k == "cmp2":
+        return f"({r_query(p[1], o)}) > ({r_query(p[2], o)})"
     if k == "and":
         return f"{r_pred(p[1], o)} AND {r_pred(p[2], o).replace('w1', 'w2', 1)}"
     raise AssertionError(k)
